@@ -126,11 +126,16 @@ fn worker<S: Scenario>(
     let mut by_sig: BTreeMap<String, Found> = BTreeMap::new();
     let progress_path = out.with_extension("progress");
     let mut progress = std::fs::File::create(&progress_path).expect("progress file");
+    start_watchdog();
     for unit in start..end {
-        let _ = progress.seek(SeekFrom::Start(0));
-        let _ = progress.write_all(format!("{:020}\n", unit).as_bytes());
         let mut first_in_unit = true;
+        let mut ordinal = 0u64;
         S::unit(seed, tier, unit, &mut |plan: S::Plan| {
+            // which plan is about to run: survives an abort of this process
+            let _ = progress.seek(SeekFrom::Start(0));
+            let _ = progress.write_all(format!("{:020} {:020}\n", unit, ordinal).as_bytes());
+            ordinal += 1;
+            HEARTBEAT.fetch_add(1, std::sync::atomic::Ordering::Relaxed);
             o.evaluations += 1;
             obs.reset_run();
             let pj = serde_json::to_string(&plan).expect("plan serialises");
@@ -179,6 +184,54 @@ fn worker<S: Scenario>(
     std::fs::write(out, serde_json::to_vec(&o).unwrap()).expect("write worker output");
     let _ = std::fs::remove_file(&progress_path);
     0
+}
+
+pub static HEARTBEAT: std::sync::atomic::AtomicU64 = std::sync::atomic::AtomicU64::new(0);
+pub const HANG_EXIT: i32 = 86;
+
+fn hang_limit() -> Duration {
+    Duration::from_secs(
+        std::env::var("VERIF_HANG_SECS")
+            .ok()
+            .and_then(|s| s.parse().ok())
+            .unwrap_or(60),
+    )
+}
+
+/// A plan that does not finish within the limit is a hang: the process exits with a
+/// distinguished code and the parent reports the plan (it cannot be interrupted otherwise).
+fn start_watchdog() {
+    let limit = hang_limit();
+    std::thread::spawn(move || {
+        let mut last = HEARTBEAT.load(std::sync::atomic::Ordering::Relaxed);
+        let mut since = Instant::now();
+        loop {
+            std::thread::sleep(Duration::from_millis(250));
+            let now = HEARTBEAT.load(std::sync::atomic::Ordering::Relaxed);
+            if now != last {
+                last = now;
+                since = Instant::now();
+            } else if since.elapsed() > limit {
+                eprintln!("[watchdog] one plan has been running for more than {:?}", limit);
+                std::process::exit(HANG_EXIT);
+            }
+        }
+    });
+}
+
+fn plan_at<S: Scenario>(tier: Tier, seed: u64, unit: u64, ordinal: u64) -> Option<S::Plan> {
+    let mut k = 0u64;
+    let mut found = None;
+    S::unit(seed, tier, unit, &mut |p: S::Plan| {
+        if k == ordinal {
+            found = Some(p);
+            k += 1;
+            return false;
+        }
+        k += 1;
+        found.is_none()
+    });
+    found
 }
 
 // ------------------------------------------------------------------------------- parent
@@ -233,7 +286,11 @@ fn spawn_workers(
 
 enum WorkerResult {
     Done(WorkerOut),
-    Died { unit: Option<u64>, status: String },
+    Died {
+        at: Option<(u64, u64)>,
+        hang: bool,
+        status: String,
+    },
     TimedOut,
 }
 
@@ -252,17 +309,24 @@ fn collect(spawned: Vec<Spawned>, cap: Duration) -> Vec<(u64, u64, WorkerResult)
                             Some(o) => break WorkerResult::Done(o),
                             None => {
                                 break WorkerResult::Died {
-                                    unit: None,
+                                    at: None,
+                                    hang: false,
                                     status: "unreadable worker output".into(),
                                 }
                             }
                         }
                     } else {
-                        let unit = std::fs::read_to_string(s.out.with_extension("progress"))
+                        let at = std::fs::read_to_string(s.out.with_extension("progress"))
                             .ok()
-                            .and_then(|t| t.trim().parse::<u64>().ok());
+                            .and_then(|t| {
+                                let mut it = t.split_whitespace();
+                                let u = it.next()?.parse::<u64>().ok()?;
+                                let k = it.next()?.parse::<u64>().ok()?;
+                                Some((u, k))
+                            });
                         break WorkerResult::Died {
-                            unit,
+                            at,
+                            hang: status.code() == Some(HANG_EXIT),
                             status: format!("{}", status),
                         };
                     }
@@ -277,7 +341,8 @@ fn collect(spawned: Vec<Spawned>, cap: Duration) -> Vec<(u64, u64, WorkerResult)
                 }
                 Err(e) => {
                     break WorkerResult::Died {
-                        unit: None,
+                        at: None,
+                        hang: false,
                         status: format!("wait failed: {}", e),
                     }
                 }
@@ -448,8 +513,10 @@ fn check_impl<S: Scenario>(id: &str, tier: Tier) -> i32 {
                             regression_hits.push((f.clone(), sig));
                         }
                         _ => {
-                            if id == "C20" && out.status.code().is_none() {
+                            if out.status.code().is_none() {
                                 regression_hits.push((f.clone(), "abort".into()));
+                            } else if out.status.code() == Some(HANG_EXIT) {
+                                regression_hits.push((f.clone(), "hang".into()));
                             } else {
                                 eprintln!(
                                     "harness error: regression replay {} failed to run",
@@ -467,9 +534,6 @@ fn check_impl<S: Scenario>(id: &str, tier: Tier) -> i32 {
             }
         }
     }
-    let spawned = spawn_workers(id, tier, seed, total, 0, workers, &dir, "w", false);
-    let results = collect(spawned, cap);
-
     let mut evaluations = 0u64;
     let mut events = 0u64;
     let mut units_done = 0u64;
@@ -479,50 +543,126 @@ fn check_impl<S: Scenario>(id: &str, tier: Tier) -> i32 {
     let mut found: BTreeMap<String, Found> = BTreeMap::new();
     let mut harness: Vec<String> = Vec::new();
     let mut samples: Vec<Value> = Vec::new();
-    for (start, end, r) in results {
-        match r {
-            WorkerResult::Done(o) => {
-                evaluations += o.evaluations;
-                events += o.events;
-                units_done += o.units;
-                nontrivial.extend(o.nontrivial);
-                states.extend(o.states);
-                for (k, v) in o.counters {
-                    *counters.entry(k).or_insert(0) += v;
-                }
-                for f in o.violations {
-                    match found.get_mut(&f.signature) {
-                        Some(e) => {
-                            e.count += f.count;
-                            if f.unit < e.unit {
-                                let c = e.count;
-                                *e = f;
-                                e.count = c;
+    let mut crashes = 0u64;
+    // ranges of units still to run; a worker that dies (abort, stack overflow, hang) names
+    // the plan it was executing, that plan becomes a violation, and the rest is re-run
+    let mut todo: Vec<(u64, u64)> = vec![(0, total)];
+    let mut round = 0;
+    while !todo.is_empty() && round < 40 {
+        round += 1;
+        let mut spawned = Vec::new();
+        let per = (workers / todo.len()).max(1);
+        for (ri, (a, b)) in todo.iter().enumerate() {
+            spawned.extend(spawn_workers(
+                id,
+                tier,
+                seed,
+                b - a,
+                *a,
+                per,
+                &dir,
+                &format!("r{}x{}", round, ri),
+                false,
+            ));
+        }
+        todo.clear();
+        for (start, end, r) in collect(spawned, cap) {
+            match r {
+                WorkerResult::Done(o) => {
+                    evaluations += o.evaluations;
+                    events += o.events;
+                    units_done += o.units;
+                    nontrivial.extend(o.nontrivial);
+                    states.extend(o.states);
+                    for (k, v) in o.counters {
+                        *counters.entry(k).or_insert(0) += v;
+                    }
+                    for f in o.violations {
+                        match found.get_mut(&f.signature) {
+                            Some(e) => {
+                                e.count += f.count;
+                                if f.unit < e.unit {
+                                    let c = e.count;
+                                    *e = f;
+                                    e.count = c;
+                                }
+                            }
+                            None => {
+                                found.insert(f.signature.clone(), f);
                             }
                         }
-                        None => {
-                            found.insert(f.signature.clone(), f);
+                    }
+                    harness.extend(o.harness);
+                    if samples.len() < 3 {
+                        samples.extend(o.samples.into_iter().take(1));
+                    }
+                }
+                WorkerResult::Died {
+                    at: Some((u, k)),
+                    hang,
+                    status,
+                } if u >= start && u < end => {
+                    crashes += 1;
+                    match plan_at::<S>(tier, seed, u, k) {
+                        Some(plan) => {
+                            let class = if hang { "hang" } else { "abort" };
+                            let sig = format!("{}|{}|{}", id, class, S::label(&plan));
+                            let msg = if hang {
+                                format!(
+                                    "the operation did not return within {:?} (unit {}, plan {})",
+                                    hang_limit(),
+                                    u,
+                                    k
+                                )
+                            } else {
+                                format!(
+                                    "the process died ({}) while executing this plan (unit {}, plan {})",
+                                    status, u, k
+                                )
+                            };
+                            let e = found.entry(sig.clone()).or_insert_with(|| Found {
+                                property: id.to_string(),
+                                unit: u,
+                                signature: sig,
+                                message: msg,
+                                plan: serde_json::to_value(&plan).unwrap(),
+                                count: 0,
+                            });
+                            e.count += 1;
+                            units_done += 1;
+                        }
+                        None => harness.push(format!(
+                            "worker died at unit {} plan {} which cannot be regenerated",
+                            u, k
+                        )),
+                    }
+                    if crashes > 24 {
+                        harness.push("more than 24 worker crashes; giving up".into());
+                    } else {
+                        if u > start {
+                            todo.push((start, u));
+                        }
+                        if u + 1 < end {
+                            todo.push((u + 1, end));
                         }
                     }
                 }
-                harness.extend(o.harness);
-                if samples.len() < 3 {
-                    samples.extend(o.samples.into_iter().take(1));
+                WorkerResult::Died { at, status, .. } => {
+                    harness.push(format!(
+                        "worker for units {}..{} died ({}) at {:?}",
+                        start, end, status, at
+                    ));
+                }
+                WorkerResult::TimedOut => {
+                    harness.push(format!(
+                        "worker for units {}..{} exceeded the wall-clock cap",
+                        start, end
+                    ));
                 }
             }
-            WorkerResult::Died { unit, status } => {
-                // a worker died on a signal / abort: find out which plan
-                harness.push(format!(
-                    "worker for units {}..{} died ({}) at unit {:?}",
-                    start, end, status, unit
-                ));
-            }
-            WorkerResult::TimedOut => {
-                harness.push(format!(
-                    "worker for units {}..{} exceeded the wall-clock cap",
-                    start, end
-                ));
-            }
+        }
+        if !harness.is_empty() {
+            break;
         }
     }
     let _ = std::fs::remove_dir_all(&dir);
@@ -587,6 +727,7 @@ fn check_impl<S: Scenario>(id: &str, tier: Tier) -> i32 {
         "known_findings_hit": known_lines.len(),
         "distinct_violation_signatures": unknown.len(),
         "regression_plans_replayed": regressions_run,
+        "worker_process_crashes_or_hangs": crashes,
         "regression_plans_failing": regression_hits.len(),
     });
     let extra = S::extra_coverage(tier);
@@ -699,14 +840,20 @@ fn report_violation(id: &str, seed: u64, f: &Found) -> Result<PathBuf, String> {
     let plan_out = dir.join("plan-out.json");
     std::fs::write(&plan_in, serde_json::to_vec(&f.plan).unwrap()).map_err(|e| e.to_string())?;
     let _ = std::fs::remove_file(&plan_out);
-    let status = Command::new(&exe)
-        .arg("minimise")
-        .arg(id)
-        .arg(&plan_in)
-        .arg(&f.signature)
-        .arg(&plan_out)
-        .stdin(Stdio::null())
-        .status();
+    let fatal = f.signature.contains("|abort|") || f.signature.contains("|hang|");
+    let status = if fatal {
+        // the plan kills or wedges the process that runs it: it is reported as found
+        Err(std::io::Error::new(std::io::ErrorKind::Other, "not minimised"))
+    } else {
+        Command::new(&exe)
+            .arg("minimise")
+            .arg(id)
+            .arg(&plan_in)
+            .arg(&f.signature)
+            .arg(&plan_out)
+            .stdin(Stdio::null())
+            .status()
+    };
     let (plan, message, minimised) = match status {
         Ok(s) if s.success() && plan_out.exists() => {
             let v: Value = serde_json::from_slice(&std::fs::read(&plan_out).unwrap())
@@ -746,8 +893,10 @@ fn report_violation(id: &str, seed: u64, f: &Found) -> Result<PathBuf, String> {
         .map_err(|e| e.to_string())?;
     let text = String::from_utf8_lossy(&out.stdout);
     let abort_sig = f.signature.contains("|abort|");
+    let hang_sig = f.signature.contains("|hang|");
     let reproduced = text.contains(&format!("signature={}", f.signature))
-        || (abort_sig && !out.status.success() && out.status.code().is_none());
+        || (abort_sig && out.status.code().is_none())
+        || (hang_sig && out.status.code() == Some(HANG_EXIT));
     if !reproduced {
         return Err(format!(
             "replay of {} in a fresh process did not reproduce signature {} (output: {})",
@@ -841,6 +990,8 @@ fn replay<S: Scenario>(rf: &ReplayFile, file: &str) -> i32 {
         }
     };
     let mut obs = Obs::new(true);
+    start_watchdog();
+    HEARTBEAT.fetch_add(1, std::sync::atomic::Ordering::Relaxed);
     let r = S::execute(&plan, &mut obs);
     if std::env::var("VERIF_TRACE").is_ok() {
         if let Some(t) = &obs.trace {
